@@ -143,6 +143,8 @@ type FnCtx struct {
 	props       []string // property tags for K1 obligations
 	sitecount   int
 	heapReads   int
+	finfo       []factInfo
+	funDecl     map[string]bool
 	pendingHWM  []string
 	hwm         map[string]string // heap version term -> watermark when that version was created
 	protected   []protCell
@@ -192,6 +194,10 @@ func (c *FnCtx) declareFun(name string, args []Sort, res Sort) {
 		return
 	}
 	c.declS[name] = true
+	if c.funDecl == nil {
+		c.funDecl = map[string]bool{}
+	}
+	c.funDecl[name] = true
 	var as []string
 	for _, a := range args {
 		as = append(as, string(a))
